@@ -263,22 +263,34 @@ impl Property for ProgProp {
             let pre = gen_tapes(self, seed ^ 0x9e37, pre_n);
             let bad: Mutex<Option<(Failure, Tapes)>> = Mutex::new(None);
             let counted = AtomicU64::new(0);
+            let pre_stats: Mutex<Stats> = Mutex::new(Stats::default());
             std::thread::scope(|s| {
                 for w in 0..16usize {
                     let pre = &pre;
                     let bad = &bad;
                     let counted = &counted;
+                    let pre_stats = &pre_stats;
                     s.spawn(move || {
+                        let mut local = Stats::default();
                         for (i, t) in pre.iter().enumerate() {
                             if i % 16 != w {
                                 continue;
                             }
                             if i % 512 == w && bad.lock().unwrap().is_some() {
-                                return;
+                                break;
                             }
                             let r = match self.build(t) {
                                 Err(f) => Err(f),
-                                Ok((p, pc)) => match crate::rendered::read_syn(&pc.source[HEADER.len()..]) {
+                                Ok((p, pc)) => {
+                                    // the static stage shares the non-trivial rule of the compile stage
+                                    let n_structs = pc.source.matches("pub struct ").count();
+                                    if n_structs >= 2 || pc.source.contains(": Option<") || pc.source.contains("Vec<") {
+                                        local.nontrivial(hash_of(&(&p.case.docs, &t.b)));
+                                    }
+                                    if local.samples.is_empty() && w == 0 {
+                                        local.samples.push(json!({"case": describe_case(&p), "generated_source": pc.source}));
+                                    }
+                                    match crate::rendered::read_syn(&pc.source[HEADER.len()..]) {
                                     Err(e) => Err(Failure::new(format!("the generated source cannot compile: {}", e)).with_signature("compile_error").with_detail(json!({"case": describe_case(&p), "generated_source": pc.source}))),
                                     Ok(defs) => match super::c04::well_formed(&defs).and_then(|_| match defs.iter().find(|d| d.name == "Serialize" || d.name == "Deserialize") {
                                         Some(d) => Err(format!("struct `{}` clashes with the serde import of the header", d.name)),
@@ -287,7 +299,7 @@ impl Property for ProgProp {
                                         Err(e) => Err(Failure::new(format!("the generated source cannot compile: {}", e)).with_signature("compile_error").with_detail(json!({"case": describe_case(&p), "generated_source": pc.source}))),
                                         Ok(()) => Ok(()),
                                     },
-                                },
+                                }}
                             };
                             counted.fetch_add(1, Ordering::Relaxed);
                             if let Err(f) = r {
@@ -295,13 +307,15 @@ impl Property for ProgProp {
                                 if g.is_none() {
                                     *g = Some((f, t.clone()));
                                 }
-                                return;
+                                break;
                             }
                         }
+                        pre_stats.lock().unwrap().merge(local);
                     });
                 }
             });
             let n = counted.load(Ordering::Relaxed);
+            st.merge(pre_stats.into_inner().unwrap());
             st.add("static_precheck_cases", n);
             st.evaluations += n;
             if let Some((f, t)) = bad.into_inner().unwrap() {
@@ -403,8 +417,8 @@ impl Property for ProgProp {
     }
     fn rule(&self) -> String {
         match self.deser {
-            Deser::QuickXml => "tape-decoded data-oriented document sequences (1..4 documents; every occurrence text-bearing xor child-bearing, blanks may sit between children; no two names of a case equal after prefix removal; all name classes incl. keywords, prefixes, xmlns/xml:lang attributes, case variants, String/Option/Vec/Self/Serialize names; CDATA, comments, PIs, DOCTYPE, predefined entities and character references). Each generated program = CLI header + rendering, unchanged, plus a copy with #[serde(deny_unknown_fields)] on every struct; 50-100 programs are compiled by one direct rustc call (edition 2021) against prebuilt serde/quick-xml rlibs (features serialize + overlapped-lists) and run: quick_xml::de::from_str::<first struct> on every source document; the value is printed through an own serde::Serializer and compared with the document (every attribute value, every text content trimmed, children incl. Vec lengths and order, nothing unaccounted). Non-trivial = program has two or more structs or an Option/Vec field and a value was compared; distinct by hash of documents and surface tape.".into(),
-            Deser::SerdeXmlRs => "as C02 but namespace-free (no ':' in names, no xmlns attributes), attribute names disjoint from element names, repeated children adjacent, child-bearing occurrences without any character data; serde-xml-rs preset, serde_xml_rs::from_str (0.6.0), no deny_unknown_fields variant. The main search excludes by construction the region of the open finding (a name is either a text leaf or structural); one case in twenty generates that region and must show exactly the known signature or nothing.".into(),
+            Deser::QuickXml => "tape-decoded data-oriented document sequences (1..4 documents; every occurrence text-bearing xor child-bearing, blanks may sit between children; no two names of a case equal after prefix removal; all name classes incl. keywords, prefixes, xmlns/xml:lang attributes, case variants, String/Option/Vec/Self/Serialize names; CDATA, comments, PIs, DOCTYPE, predefined entities and character references). Each generated program = CLI header + rendering, unchanged, plus a copy with #[serde(deny_unknown_fields)] on every struct; 50-100 programs are compiled by one direct rustc call (edition 2021) against prebuilt serde/quick-xml rlibs (features serialize + overlapped-lists) and run: quick_xml::de::from_str::<first struct> on every source document; the value is printed through an own serde::Serializer and compared with the document (every attribute value, every text content trimmed, children incl. Vec lengths and order, nothing unaccounted). A first stage checks 40 000 (quick) / 1.5 M (thorough) further generated cases without rustc for the necessary conditions of compilation (syn parse, the C04 oracle, no struct named like the serde import). Non-trivial = program has two or more structs or an Option/Vec field (and, in the compile stage, a value was compared); distinct by hash of documents and surface tape; distinct_nontrivial counts both stages, `programs` only the compiled ones.".into(),
+            Deser::SerdeXmlRs => "as C02 but namespace-free (no ':' in names, no xmlns attributes), attribute names disjoint from element names, repeated children adjacent, child-bearing occurrences without any character data; serde-xml-rs preset, serde_xml_rs::from_str (0.6.0), no deny_unknown_fields variant. The main search excludes by construction the region of the open finding (a name is either a text leaf or structural); one case in twenty generates that region and must show exactly the known signature or nothing. The static first stage and the counting are as in C02.".into(),
         }
     }
     fn assumptions(&self) -> Vec<String> {
